@@ -39,7 +39,7 @@ ASSUMPTIONS = [
 
 def GATES(tier):
     return [("reads_judged", 3000), ("stale_candidates", 300), ("cached_reads_without_getter", 200), ("override_reads", 50), ("chain_reads", 200),
-            ("failed_mutations", 50), ("copy_results_checked", 200), ("wildcard_graphs", 3), ("subclass_dependants", 3), ("post_init_fills", 3), ("subclass_overrides_property", 5), ("plain_subclass_dependants", 20),
+            ("failed_mutations", 50), ("copy_results_checked", 200), ("wildcard_graphs", 3), ("subclass_dependants", 3), ("post_init_fills", 3), ("subclass_overrides_property", 5), ("plain_subclass_dependants", 20), ("subclass_redefaults_dependant", 5),
             ("frozen_graphs", 5), ("deleter_graphs", 5), ("post_init_mutates_dependency", 5)] + [
         (f"entry:{e}", 10) for e in ("setattr", "delattr", "with", "transform_attr", "reset_attr", "with_item", "without_item", "update", "transform", "reset")
     ]
@@ -72,7 +72,7 @@ def make_source(g):
         L += ["", "    def __post_init__(self):", "        self.p", "        self.q"]
         if g["post_init"] == "fill_then_mutate":
             L += ["        self.a = self.a + 1  # a dependency changes after the caches were filled, still inside construction"]
-    L += ["", f"@spec_class(bootstrap={g['boot']})", "class S(M):", f"    d: int = Attr(default=100, invalidated_by=['a'])", "",
+    L += ["", f"@spec_class(bootstrap={g['boot']})", "class S(M):", f"    d: int = Attr(default=100, invalidated_by=['a'])"] + (["    b = 11  # re-defaulted here: still invalidated as declared by M"] if g.get("s_redefault_b") else []) + ["",
           "    @spec_property(cache=True, invalidated_by=['a'])", "    def r(self):", "        PROBE.enter('get:r')", "        return ['r', _rd(self, 'a')]", ""]
     if g.get("s_p"):
         sp = g["s_p"]
@@ -185,6 +185,9 @@ def run(ctx, params):
             inv = list(g0["p"]["inv"]) + [extra[0]]
             g["s_p"] = {"cache": True, "inv": inv, "reads": reads_of(inv)}
             ctx.count("subclass_overrides_property")
+        if g["b_inv"] and rng.random() < 0.5:
+            g["s_redefault_b"] = True
+            ctx.count("subclass_redefaults_dependant")
         if g["frozen"]:
             ctx.count("frozen_graphs")
         if g["p_deleter"]:
@@ -298,7 +301,7 @@ def run(ctx, params):
                         subject = res if (res is not None and res is not inst and not inplace and entry not in ("setattr", "delattr")) else inst
                         reset_expected = {d for ca in changed_attrs for d in subject_m.dependants(ca)}
                         if reset_expected & {"b", "d"}:
-                            for attr, inv, default in (("b", g["b_inv"], 10), ("d", ["a"] if subject_m.cname == "S" else None, 100)):
+                            for attr, inv, default in (("b", g["b_inv"], 11 if (subject_m.cname == "S" and g.get("s_redefault_b")) else 10), ("d", ["a"] if subject_m.cname == "S" else None, 100)):
                                 if attr in reset_expected and (attr not in changed_attrs or entry == "reset"):
                                     ctx.count("reads_judged")
                                     if subject.__dict__.get(attr, "<missing>") != default:
